@@ -3,6 +3,9 @@
   column-normalised tables.
 -/
 import PgmVerif.Proofs.VE
+import PgmVerif.Proofs.MassBound
+import Mathlib.Tactic.Linarith
+import Mathlib.Tactic.NormNum
 import PgmVerif.Model.CPD
 import PgmVerif.Model.Generated
 namespace PgmVerif
@@ -281,6 +284,26 @@ theorem C05_joint_mass_one (K : Var → Nat) (cpds : List (Var × Factor))
   have := leaves_sum_out K [] cpds hnorm (fun _ _ f hf => by cases hf) htopo a ha
   rw [List.append_nil] at this
   rw [this, jointDen_nil]
+
+/-- **joint mass of a network that passes validation with tolerance `t`**: `check_model` accepts a CPD whose columns sum to 1
+    within `t` (`is_valid_cpd`, `atol`; the literal is pinned by `C05_atol_tie`).  For non-negative CPDs listed children-first,
+    `|column sum − 1| ≤ t` for every column of every CPD gives  `(1−t)^n ≤ Σ_all ∏ CPDs ≤ (1+t)^n`  for the `n`-node network —
+    the exact statement `C05_joint_mass_one` is the case `t = 0`. -/
+theorem C05_joint_mass_within_tolerance (K : Var → Nat) (t : Rat) (ht1 : t ≤ 1) (cpds : List (Var × Factor))
+    (hcol : ∀ p ∈ cpds, ∀ a, Bounded K a → |sumVar K p.1 p.2.den a - 1| ≤ t)
+    (hnn : NonnegF K (cpds.map (·.2)))
+    (htopo : cpds.Pairwise (fun p q => p.1 ∉ q.2.scope))
+    (a : Asg) (ha : Bounded K a) :
+    (1 - t) ^ cpds.length ≤ sumOut K (cpds.map (·.1)) (jointDen (cpds.map (·.2))) a ∧
+    sumOut K (cpds.map (·.1)) (jointDen (cpds.map (·.2))) a ≤ (1 + t) ^ cpds.length := by
+  refine joint_mass_bounds K (1 - t) (1 + t) (by linarith) cpds ?_ hnn htopo a ha
+  intro p hp b hb
+  have := abs_le.mp (hcol p hp b hb)
+  constructor <;> linarith [this.1, this.2]
+
+/-- non-vacuity of the tolerance statement: a CPD whose column sums are 1.005 and 0.995 is within t = 1/100 and not exact -/
+example : |(1005 / 1000 : Rat) - 1| ≤ 1 / 100 ∧ |(995 / 1000 : Rat) - 1| ≤ 1 / 100 ∧ (1005 / 1000 : Rat) ≠ 1 := by
+  refine ⟨?_, ?_, ?_⟩ <;> norm_num [abs_le]
 
 /-- extraction tie: the `atol` literal in `DiscreteFactor.is_valid_cpd` is the documented 0.01 -/
 theorem C05_atol_tie : Generated.validCpdAtol = some (1, 100) := by decide
